@@ -2,7 +2,7 @@
   C14 - custom messages reach exactly the addressed members, unmodified, within the size limit.
   Property theorems only; helper lemmas live in Hagall/Proofs.
 -/
-import Hagall.Proofs.Basic
+import Hagall.Proofs.Handle
 namespace Hagall.Props.C14
 open Hagall
 
@@ -59,19 +59,13 @@ theorem C14_flagged (cfg : Cfg) (s : Session) (p : Part) (ots : Nat) (pids : Lis
     is exactly `Session.custom`: no module reacts to it. -/
 theorem C14_handle (cfg : Cfg) (s : Session) (p : Part) (ots : Nat) (pids : List Nat) (body : Bytes) (hint : Nat) :
     s.handle cfg p (.custom ots pids body) hint = s.custom cfg p ots pids body := by
-  simp only [Session.handle, Session.core]
-  rcases h : s.custom cfg p ots pids body with ⟨s', ds, o⟩
-  have ho : o = .ok := by
-    unfold Session.custom at h
-    split at h <;> simp_all
-  subst ho
-  cases cfg.vikja <;> cases cfg.odal <;> cases cfg.dagaz <;>
-    simp [Res.andThen, Session.vikja, Session.odal, Session.dagaz]
+  rw [Session.handle_eq_core cfg s p _ hint trivial]
+  rfl
 
 /-- non-vacuity: a three-member session, a body addressed to [2, 2, 9, 1] from participant 1 -/
 example :
-    let s : Session := { id := 1, uuid := 1, pidCur := 3, parts := [⟨1, 10, {}⟩, ⟨2, 20, {}⟩, ⟨3, 30, {}⟩] }
-    (s.custom {} ⟨1, 10, {}⟩ 7 [2, 2, 9, 1] [1, 2, 3]).2.1 = [(20, .customBcast 7 1 [1, 2, 3])] := by
+    let s : Session := { id := 1, uuid := 1, pidCur := 3, parts := [⟨1, 10⟩, ⟨2, 20⟩, ⟨3, 30⟩] }
+    (s.custom {} ⟨1, 10⟩ 7 [2, 2, 9, 1] [1, 2, 3]).2.1 = [(20, .customBcast 7 1 [1, 2, 3])] := by
   decide
 
 end Hagall.Props.C14
